@@ -75,6 +75,29 @@ def h_binop(cx, la, lb, ops):
         zero_sum(cx, r, op)
 
 
+def _sym_cfgs(cx, tag, smax, stepmax, nlo, nhi, hole, step=None):
+    """configuration list of one chain from solver-enumerated parameters: first configuration, spacing, length, optionally one interior hole"""
+    s0 = cx.integer(tag + '_start', 1, smax)
+    st = cx.integer(tag + '_step', step or 1, step or stepmax)
+    n = cx.integer(tag + '_len', nlo, nhi)
+    if cx.mode == 'sym':
+        s0, st, n = s0.concretize(1, smax), st.concretize(step or 1, step or stepmax), n.concretize(nlo, nhi)
+    cf = [s0 + st * k for k in range(n + (1 if hole else 0))]
+    if hole:
+        del cf[2]
+    return cf
+
+
+def h_binop_layouts(cx, ops, smax, stepmax, nlo, nhi, hole_a=False, hole_b=False, second=None, step_a=None, step_b=None):
+    """binop with the layout parameters themselves symbolic integers (the solver enumerates the box; the data stay symbolic on every path):
+    all pairs of ranges (optionally with an interior hole) with first configuration 1..smax, spacing 1..stepmax, nlo..nhi configurations"""
+    la = {'e|r1': _sym_cfgs(cx, 'A', smax, stepmax, nlo, nhi, hole_a, step_a)}
+    lb = {'e|r1': _sym_cfgs(cx, 'B', smax, stepmax, nlo, nhi, hole_b, step_b)}
+    if second:
+        la['e|r2'] = list(second)
+    h_binop(cx, la, lb, ops)
+
+
 def zero_sum(cx, r, label):
     """lemma used by C11: the fluctuations of every replica sum to zero"""
     for n in r.deltas:
@@ -316,7 +339,7 @@ def _lin_spec(g, S, base):
 
 
 from props import c10 as _c10  # noqa: array_mode of derived_observable is exercised through linalg.matmul
-HARNESSES = dict(binop=h_binop, unop=h_unop, scalar=h_scalar, tree=h_tree, cobs=h_cobs, derived=h_derived, array_mode=_c10.h_matmul)
+HARNESSES = dict(binop=h_binop, unop=h_unop, scalar=h_scalar, tree=h_tree, cobs=h_cobs, derived=h_derived, array_mode=_c10.h_matmul, binop_layouts=h_binop_layouts)
 
 
 # ----------------------------------------------------------------------------- jobs
@@ -381,6 +404,16 @@ def jobs(tier, seed):
                        ({'e|r1': [1, 2, 3, 4, 5]}, e1, COV2)]:
         for v in ('autograd', 'num_grad', 'man_grad', 'multi', 'ndarray'):
             add('derived', la=la, lb=lb, lc=lc, variant=v)
+    # layout parameters as symbolic integers: every pair of ranges in a box (and with one hole)
+    box = dict(smax=8, stepmax=3, nlo=5, nhi=6)        # first configuration 1..8 (disjoint pairs with a gap included), spacing 1..3, 5..6 configurations
+    for sa_ in (1, 2, 3):
+        for sb_ in (1, 2, 3):
+            J.append(dict(harness='binop_layouts', params=dict(ops=['add'], step_a=sa_, step_b=sb_, **box), opts=dict(maxpaths=3000)))
+            if tier == 'thorough' or sa_ == sb_:
+                J.append(dict(harness='binop_layouts', params=dict(ops=['mul'], hole_b=True, step_a=sa_, step_b=sb_, **box), opts=dict(maxpaths=3000)))
+            if tier == 'thorough':
+                J.append(dict(harness='binop_layouts', params=dict(ops=['div'], hole_a=True, hole_b=True, step_a=sa_, step_b=sb_, **box), opts=dict(maxpaths=3000)))
+                J.append(dict(harness='binop_layouts', params=dict(ops=['sub'], second=[1, 2, 3, 4, 5], step_a=sa_, step_b=sb_, **box), opts=dict(maxpaths=3000)))
     # array_mode (the branch behind linalg.matmul): covariance inputs on some operands only, Monte Carlo operands on different ensembles
     add('array_mode', n=2, nf=2, lays=[{'e|r1': [1, 2, 3, 4, 5]}, {'f|r1': [2, 4, 6, 8, 10]}], covf=[False, True])
     add('array_mode', n=2, nf=3, lays=[{'e|r1': [1, 2, 3, 4, 5]}], covf=[False, False, True])
